@@ -485,6 +485,39 @@ class KernelRun:
             await self.tx(f"k static {kkey('step', './plan.py')} {hexlist([x])}",
                           lambda: wf.declare_static_files(wf.find(Step, "./plan.py"), [x]), lambda v: hexlist(sorted(v)))
 
+    async def rerole_same_step(self):
+        """A step is declared with a path as a regular output, its creator runs again, and the same step is
+        declared with the same path as a VOLATILE output (or the reverse): not a recycle (the role of a path is part
+        of the declaration); the file row takes the role of the new declaration."""
+        r, wf = self.r, self.wf
+        running = await self.q(lambda: self.steps(StepState.RUNNING))
+        if "./plan.py" not in running:
+            return
+        x, y = r.sample(PATHS, 2)
+        first_vol = r.random() < 0.5
+        for phase in (0, 1):
+            vol = first_vol if phase == 0 else not first_vol
+            out_l, vol_l = ([y], [x]) if vol else ([x, y] if r.random() < 0.5 else [x], [])
+            if vol and r.random() < 0.5:
+                out_l = []
+            self.decls["role"] = ("role", ".", (), (), tuple(out_l), tuple(vol_l), Need.DEFAULT, False, {}, {})
+
+            def fn(out_l=out_l, vol_l=vol_l):
+                return wf.define_step(wf.find(Step, "./plan.py"), "role", inp_paths=[], env_deps=[], out_paths=list(out_l),
+                                      vol_paths=list(vol_l), workdir=".", need=Need.DEFAULT, resources=None, shell=False,
+                                      env_overrides=None, _safe=False)
+
+            line = (f"k define {kkey('step', './plan.py')} {hexs('role')} {hexs('.')} . . {hexlist(out_l)} {hexlist(vol_l)} "
+                    "DEFAULT 0 0 . .")
+            if not (await self.tx(line, fn, lambda v: hexlist(sorted(v)))).startswith("ok"):
+                return
+            if phase == 0:
+                if r.random() < 0.5 and await self.pop_until("role", limit=3):
+                    await self.complete_ok("role")
+                await self.step_op("reset_rerun", "./plan.py", fn=lambda: wf.find(Step, "./plan.py").reset_for_rerun())
+        for _ in range(r.randint(0, 2)):
+            await self.pop()
+
     async def amended_consumer_rerun(self):
         """An OPTIONAL step is needed only through an amended input of `use`; `use` then runs again
         without amending (witness of the repaired defect F20)."""
@@ -1270,7 +1303,7 @@ class KernelRun:
     SCENARIOS = ("nested_chain", "deferred_wakeup", "resource_race", "detached_completion", "rerole",
                  "amended_consumer_rerun", "hold_recycle", "shrink_resources", "retarget_optional", "cycle_via_detached",
                  "hold_running_recycled", "deferred_on_detached_input", "plan_need_demotion", "duplicate_definition",
-                 "self_define_detached", "dir_target_bounds")
+                 "self_define_detached", "dir_target_bounds", "rerole_same_step")
 
     async def generate(self, cm, nops: int, scenario: str | None = None):
         """A history: boot, then (in the well-formed stream) one directed scenario with probability
